@@ -31,7 +31,15 @@ RULE = ("9 of 10 cases: random discrete BN (1-6 nodes, 1-7 thorough; ER/chain/co
         "(0-3 evidence vars, P(e) > 0), GibbsSampling kernels + sample + generate_sample from a positive-mass start, "
         "2 simulate() variants drawn from do / evidence / virtual evidence / virtual intervention / partial / missing, "
         "each sampler run twice with the same seed (include_latents toggled, global RNG perturbed in between), "
-        "25%: 20000-row statistical guard}. 1 of 10 cases: GibbsSampling on a random Markov network (2-5 nodes). "
+        "25%: 20000-row statistical guard}. 1 of 10 cases: GibbsSampling on a random Markov network (2-5 nodes; half "
+        "with potentials 1e-12..1e8 mixed). Object reuse: 60%: ONE BayesianModelSampling object serves 3-5 different "
+        "forward / rejection / likelihood-weighted calls (each twice, same seed) with changing evidence (incl. [] and "
+        "None), size, seed, include_latents, partial_samples; 50%: one GibbsSampling object for all sample() / "
+        "generate_sample() calls, then continued without start_state (judged at the chain's own state); 50%: one model "
+        "object and one set of argument objects for every simulate() call. Boundaries: seeds 0 / 1 / 2**32-1, size 1, "
+        "30%: CPD entries 1e-12..1e-6 (all comparisons relative, rtol 1e-9), virtual vectors with 1e-6 and 1-1e-9, "
+        "missing_prob 1e-9 and 1-1e-9, missing_columns None / [] / list, do-evidence-virtual containers None vs empty, "
+        "partial frame without columns, multi-digit / negative / 2**40 integer state names, '' as a state name. "
         "non-trivial: BN with >= 2 nodes and >= 1 edge for which >= 1 traced row of a node with parents was compared, "
         "or an MN whose kernels were compared; distinct by digest of the whole spec")
 ASSUMPTIONS = ["numpy.random.choice(a, size, p=p) honours p (everything above it is observed: the vectors handed to it, "
@@ -72,17 +80,18 @@ MANIFEST = {
 
 # numpy cells: 1e-9.  torch cells: pgmpy builds every table through torch.Tensor(values) (float32) before casting
 # to the configured dtype, so stored probabilities carry ~6e-8 relative rounding; that is representation, not law.
-TOL = {"atol": 1e-9, "rtol": 1e-9}
+TOL = {"atol": 1e-30, "rtol": 1e-9}     # relative: CPD entries / potentials range over 1e-12 .. 1e8
 
 
 def set_tolerance(backend):
     from rv.props import C07_trace
     if backend == "numpy":
-        TOL.update(atol=1e-9, rtol=1e-9)
-        C07_trace.ST.helper_atol = 1e-7
+        TOL.update(atol=1e-30, rtol=1e-9)
+        C07_trace.ST.helper_rtol = 1e-9
     else:
-        TOL.update(atol=2e-6, rtol=2e-6)
-        C07_trace.ST.helper_atol = 5e-6
+        # float32 storage: 1 - 1e-9 is 1.0 there, so complements of tiny entries are only right to ~1e-7 absolute
+        TOL.update(atol=4e-7, rtol=4e-6)
+        C07_trace.ST.helper_rtol = 1e-5
 
 
 K_NUMNAME = "c07:number-taken-as-name"
@@ -90,6 +99,9 @@ K_PARTIAL = "c07:partial-samples-names-not-converted"
 K_VLEAK = "c07:simulate-leaks-virtual-node-column"
 K_GIBBS_SEED = "c07:gibbs-random-start-before-seed"
 K_GEN_LAT = "c07:gibbs-generate-sample-latents"
+K_EV_NONE = "c07:evidence-none-not-accepted"
+K_MISS_EMPTY = "c07:missing-columns-empty-list-means-all"
+OPTION_KEYS = (K_VLEAK, K_GIBBS_SEED, K_GEN_LAT, K_EV_NONE, K_MISS_EMPTY)
 
 
 # ------------------------------------------------------------------ monitors
@@ -205,6 +217,8 @@ def make_partial(bn, partial, dtype):
     import pandas as pd
     if not partial:
         return None
+    if not partial["cols"]:
+        return pd.DataFrame(index=range(len(partial["rows"])))
     cols = {}
     for j, c in enumerate(partial["cols"]):
         vals = [bn["states"][c][r[j]] for r in partial["rows"]]
@@ -232,6 +246,28 @@ def build_bn(bn, seed):
     import random
     from rv import build
     return build.bayesian_network(bn, rng=random.Random(seed))
+
+
+def get_sampler(bn, aux):
+    """Fresh sampler per call, or ONE shared object serving a whole call sequence (aux['shared_sampler'])."""
+    from pgmpy.sampling import BayesianModelSampling
+    return aux.get("shared_sampler") or BayesianModelSampling(build_bn(bn, aux["build_seed"]))
+
+
+def call_with_evidence(ctx, obs, fn, evl, use_none, label, **kw):
+    """evidence=None is documented as 'no evidence'.  If that raises while evidence=[] works, the failure is
+    attributed to the None handling and the checks go on with the [] result."""
+    from rv.props.C07_trace import Session
+    with Session() as ses:
+        r = ctx.call(fn, evidence=None if (use_none and not evl) else list(evl), **kw)
+    if ctx.failed(r) and use_none and not evl:
+        with Session() as ses2:
+            r2 = ctx.call(fn, evidence=[], **kw)
+        if not ctx.failed(r2):
+            obs.violation(f"c07:exception:{r.type}@{r.where}", f"{label} with evidence=None raised {r!r} "
+                          f"(evidence=[] is accepted)", [K_EV_NONE])
+            return r2, ses2
+    return r, ses
 
 
 def perturb(k):
@@ -421,7 +457,8 @@ def probe_fwd(bn, prm, obs, ctx, aux):
     part = prm["partial"]
     n, seed = prm["size"], prm["seed"]
     lab = f"forward_sample(size={n}, seed={seed}{', partial_samples=' + str(part['cols']) if part else ''})"
-    smp = BayesianModelSampling(build_bn(bn, aux["build_seed"]))
+    lab = aux.get("tag", "") + lab
+    smp = get_sampler(bn, aux)
     perturb(1)
     with Session() as ses:
         r = ctx.call(smp.forward_sample, size=n, include_latents=True, seed=seed, show_progress=False,
@@ -436,7 +473,7 @@ def probe_fwd(bn, prm, obs, ctx, aux):
     compare_numbers(obs, nums, got, "c07:wrong-state-name", lab + " returned frame vs drawn numbers",
                     attribs(bn, [], part))
     # same seed, fresh sampler, perturbed global RNG, latents not requested
-    smp2 = BayesianModelSampling(build_bn(bn, aux["build_seed"]))
+    smp2 = get_sampler(bn, aux)
     perturb(2)
     r2 = ctx.call(smp2.forward_sample, size=n, include_latents=False, seed=seed, show_progress=False,
                   partial_samples=make_partial(bn, part, aux["pdtype"]), n_jobs=1)
@@ -446,7 +483,7 @@ def probe_fwd(bn, prm, obs, ctx, aux):
     if check_frame(obs, r2, [v for v in bn["nodes"] if v not in bn["latents"]], n, lab2, attribs(bn, [], part)):
         got2 = frame_numbers(obs, P, r2, lab2, bn, part)
         compare_numbers(obs, got, got2, "c07:seed-not-reproducible", lab2 + " vs first run", attribs(bn, [], part))
-    if not obs.viol:
+    if not [v for v in obs.viol if not set(v['attrib']) & set(OPTION_KEYS)]:
         obs.xcell["forward"] = digest(got)
 
 
@@ -463,12 +500,12 @@ def probe_rej(bn, prm, obs, ctx, aux):
           f"{', partial_samples=' + str(part['cols']) if part else ''})"
     first = None
     for run, il in enumerate((True, False)):
-        smp = BayesianModelSampling(build_bn(bn, aux["build_seed"]))
+        smp = get_sampler(bn, aux)
         perturb(3 + run)
-        with Session() as ses:
-            r = ctx.call(smp.rejection_sample, evidence=list(evl), size=n, include_latents=il, seed=seed,
-                         show_progress=False, partial_samples=make_partial(bn, part, aux["pdtype"]))
-        labr = lab + f" [include_latents={il}]"
+        labr = aux.get("tag", "") + lab + f" [include_latents={il}]"
+        r, ses = call_with_evidence(ctx, obs, smp.rejection_sample, evl, prm.get("ev_none"), labr, size=n,
+                                    include_latents=il, seed=seed, show_progress=False,
+                                    partial_samples=make_partial(bn, part, aux["pdtype"]))
         if ctx.failed(r):
             return fail(obs, bn, r, labr, part, extra)
         cols = [v for v in bn["nodes"] if il or v not in bn["latents"]]
@@ -494,7 +531,7 @@ def probe_rej(bn, prm, obs, ctx, aux):
         else:
             compare_numbers(obs, first, got, "c07:seed-not-reproducible", labr + " vs first run",
                             attribs(bn, [], part))
-    if not obs.viol and first is not None:
+    if first is not None and not [v for v in obs.viol if not set(v['attrib']) & set(OPTION_KEYS)]:
         obs.xcell["rejection"] = digest(first)
 
 
@@ -509,12 +546,11 @@ def probe_lw(bn, prm, obs, ctx, aux):
     lab = f"likelihood_weighted_sample(evidence={[(v, s) for v, s in evl]}, size={n}, seed={seed})"
     first = None
     for run, il in enumerate((True, False)):
-        smp = BayesianModelSampling(build_bn(bn, aux["build_seed"]))
+        smp = get_sampler(bn, aux)
         perturb(5 + run)
-        with Session() as ses:
-            r = ctx.call(smp.likelihood_weighted_sample, evidence=list(evl), size=n, include_latents=il, seed=seed,
-                         show_progress=False, n_jobs=1)
-        labr = lab + f" [include_latents={il}]"
+        labr = aux.get("tag", "") + lab + f" [include_latents={il}]"
+        r, ses = call_with_evidence(ctx, obs, smp.likelihood_weighted_sample, evl, prm.get("ev_none"), labr, size=n,
+                                    include_latents=il, seed=seed, show_progress=False, n_jobs=1)
         if ctx.failed(r):
             return fail(obs, bn, r, labr)
         cols = [v for v in bn["nodes"] if il or v not in bn["latents"]] + ["_weight"]
@@ -543,7 +579,7 @@ def probe_lw(bn, prm, obs, ctx, aux):
                     for p in bn["cpds"][v]["parents"]:
                         col = col * bn["card"][p] + nums[p]
                     want = want * P.T[v][ev[v], col]
-                d = np.nonzero(~np.isclose(wts, want, atol=1e-12, rtol=TOL['rtol'] * 10))[0]
+                d = np.nonzero(~np.isclose(wts, want, atol=1e-300, rtol=TOL['rtol'] * 10))[0]
                 fam = [p for v in ev for p in bn["cpds"][v]["parents"]]
                 if len(d):
                     i = int(d[0])
@@ -556,8 +592,35 @@ def probe_lw(bn, prm, obs, ctx, aux):
             compare_numbers(obs, first[0], got, "c07:seed-not-reproducible", labr + " vs first run")
             obs.expect(len(wts) == len(first[1]) and bool(np.allclose(wts, first[1], atol=0, rtol=1e-12)),
                        "c07:seed-not-reproducible", f"{labr}: weights differ from the first run")
-    if not obs.viol and first is not None:
+    if first is not None and not [v for v in obs.viol if not set(v['attrib']) & set(OPTION_KEYS)]:
         obs.xcell["lw"] = [digest(first[0]), float(first[1].sum())]
+
+
+def track_chain(obs, evs, state, sweeps, gvars, cond, labr, attrib_of):
+    """Every recorded Gibbs step must use the full conditional (from the joint) at the tracked chain state.
+    Returns the list of chain states (start + one per sweep) or None."""
+    state = dict(state)
+    if not obs.expect(len(evs) == sweeps * len(gvars), "c07:trace-shape", f"{labr}: {len(evs)} draws for "
+                      f"{sweeps} sweeps over {len(gvars)} variables"):
+        return None
+    rows = [dict(state)]
+    it = iter(evs)
+    for i in range(sweeps):
+        for var in gvars:
+            ev = next(it)
+            if ev["helper"]:
+                obs.violation("c07:helper-draw-mismatch", f"{labr}: {ev['helper'][0]}")
+            want = cond(var, state)
+            p = ev["wtab"][0]
+            if str(ev["node"]) != var or want is None or p.shape != want.shape or not np.allclose(p, want, **TOL):
+                obs.violation("c07:gibbs-step-not-full-conditional", f"{labr}: sweep {i}: {ev['node']!r} drawn "
+                              f"from {p.tolist()}; full conditional of {var!r} at chain state "
+                              f"{state} = {None if want is None else want.tolist()}", attrib_of(var), var=var)
+                return None
+            state[var] = int(ev["out"][0])
+        rows.append(dict(state))
+    obs.ok(sweeps * len(gvars))
+    return rows
 
 
 def gibbs_common(obs, ctx, g, nodes, card, J, prm, lab, latents, attrib_of):
@@ -632,41 +695,57 @@ def gibbs_common(obs, ctx, g, nodes, card, J, prm, lab, latents, attrib_of):
             obs.expect(bool(np.all((got[c] >= 0) & (got[c] < card[c]))), "c07:invalid-state-value",
                        f"{labr}: column {c!r} holds a number outside range({card[c]})")
         if run == 0:
-            state = {v: int(start[v]) for v in nodes}
-            evs = ses.loose
-            okc = obs.expect(len(evs) == (n - 1) * len(gvars), "c07:trace-shape", f"{labr}: {len(evs)} draws for "
-                             f"{n - 1} sweeps over {len(gvars)} variables")
-            rows = [dict(state)]
-            it = iter(evs)
-            good = okc
-            for i in range(n - 1):
-                if not good:
-                    break
-                for var in gvars:
-                    ev = next(it)
-                    if ev["helper"]:
-                        obs.violation("c07:helper-draw-mismatch", f"{labr}: {ev['helper'][0]}")
-                    want = cond(var, state)
-                    p = ev["wtab"][0]
-                    if str(ev["node"]) != var or want is None or p.shape != want.shape or \
-                            not np.allclose(p, want, **TOL):
-                        obs.violation("c07:gibbs-step-not-full-conditional", f"{labr}: sweep {i}: {ev['node']!r} drawn "
-                                      f"from {np.round(p, 6).tolist()}; full conditional of {var!r} at chain state "
-                                      f"{state} = {None if want is None else np.round(want, 6).tolist()}",
-                                      attrib_of(var), var=var)
-                        good = False
-                        break
-                    state[var] = int(ev["out"][0])
-                rows.append(dict(state))
-            if good:
-                obs.ok((n - 1) * len(gvars))
+            rows = track_chain(obs, ses.loose, {v: int(start[v]) for v in nodes}, n - 1, gvars, cond, labr, attrib_of)
+            if rows is not None:
                 want = {c: np.array([rw[c] for rw in rows], dtype=int) for c in nodes}
                 compare_numbers(obs, want, got, "c07:gibbs-frame-not-chain", labr + " frame vs tracked chain")
             first = got
         else:
             compare_numbers(obs, first, got, "c07:seed-not-reproducible", labr + " vs first run")
-    if not obs.viol and first is not None:
+    if first is not None and not [v for v in obs.viol if not set(v['attrib']) & set(OPTION_KEYS)]:
         obs.xcell["gibbs"] = digest(first)
+    # object reuse: the SAME chain object goes on from its current state (start_state omitted), with other
+    # size / seed / include_latents; every step is still judged at the state the chain is really in
+    if prm.get("reuse") and not obs.viol:
+        for k, (n2, il, sd) in enumerate(prm["reuse"]):
+            try:
+                cur = {str(st.var): int(st.state) for st in g.state}
+            except Exception as e:
+                return obs.violation("c07:malformed-result", f"{lab}: chain state unreadable: {e}")
+            perturb(30 + k)
+            labr = lab + f" [same object, call {k + 3}].sample(start_state=None, size={n2}, seed={sd}, include_latents={il})"
+            with Session() as ses:
+                r = ctx.call(g.sample, start_state=None, size=n2, seed=sd, include_latents=il)
+            if ctx.failed(r):
+                return obs.violation(f"c07:exception:{r.type}@{r.where}", f"{labr} raised {r!r}", attrib_of(None))
+            if not check_frame(obs, r, [v for v in nodes if il or v not in latents], n2, labr):
+                return
+            rows = track_chain(obs, ses.loose, cur, n2 - 1, gvars, cond, labr, attrib_of)
+            if rows is not None:
+                try:
+                    got = {c: np.array(r[c].tolist(), dtype=int) for c in r.columns}
+                except Exception as e:
+                    return obs.violation("c07:malformed-result", f"{labr}: {e}")
+                want = {c: np.array([rw[c] for rw in rows], dtype=int) for c in nodes}
+                compare_numbers(obs, want, got, "c07:gibbs-frame-not-chain", labr + " frame vs chain continued from "
+                                "the object's own state")
+            # generator version on the same object, again without start_state
+            try:
+                cur = {str(st.var): int(st.state) for st in g.state}
+            except Exception as e:
+                return obs.violation("c07:malformed-result", f"{lab}: chain state unreadable: {e}")
+            labg = lab + f" [same object, call {k + 3}b].generate_sample(size=2, seed={sd}, include_latents=True)"
+            with Session() as ses:
+                r = ctx.call(lambda: list(g.generate_sample(size=2, include_latents=True, seed=sd)))
+            if ctx.failed(r):
+                return obs.violation(f"c07:exception:{r.type}@{r.where}", f"{labg} raised {r!r}", attrib_of(None))
+            rows = track_chain(obs, ses.loose, cur, 2, gvars, cond, labg, attrib_of)
+            if rows is not None:
+                try:
+                    ys = [{str(st.var): int(st.state) for st in row} for row in r]
+                except Exception as e:
+                    return obs.violation("c07:malformed-result", f"{labg}: {e}")
+                obs.expect(ys == rows[1:], "c07:gibbs-frame-not-chain", f"{labg}: yielded {ys}, tracked chain {rows[1:]}")
     # generate_sample: latents only when requested
     g2 = prm["rebuild"]()
     if not ctx.failed(g2):
@@ -709,7 +788,7 @@ def probe_gibbs(bn, prm, obs, ctx, aux):
         ch = [c for c in nodes if var in pa[c]]
         return sorted(set(pa[var]) | set(ch) | {p for c in ch for p in pa[c]} - {var})
 
-    prm2 = dict(prm, rebuild=mk)
+    prm2 = dict(prm, rebuild=(lambda: g) if prm.get("reuse") else mk)
     gibbs_common(obs, ctx, g, nodes, bn["card"], J, prm2, lab, bn["latents"], lambda var: attribs(bn, blanket(var)))
     # fixed seed with a random start state (strictly positive models only)
     if prm.get("random_start") and not any(v["key"].startswith("c07:exception") for v in obs.viol):
@@ -760,7 +839,7 @@ def probe_mn(spec, obs, ctx):
         fam = nodes if var is None else nb[var]
         return [K_NUMNAME] if any(nonident_int(mn, v) for v in fam) else []
 
-    prm = dict(spec["gibbs"], rebuild=mk)
+    prm = dict(spec["gibbs"], rebuild=(lambda: g) if spec["gibbs"].get("reuse") else mk)
     gibbs_common(obs, ctx, g, nodes, mn["card"], J, prm, lab, [], att)
 
 
@@ -783,19 +862,34 @@ def probe_sim(bn, var, obs, ctx, aux):
         v = d["var"]
         return TabularCPD(v, bn["card"][v], [[x] for x in d["vec"]], state_names={v: list(bn["states"][v])})
 
+    empty = var.get("empty", "none")          # how "nothing" is spelled: None or an empty dict / list
+    shared = aux.get("shared_model") is not None
+    _kw = []
+
     def kwargs():
-        return dict(n_samples=n, do={v: bn["states"][v][s] for v, s in var["do"].items()} or None,
-                    evidence={v: bn["states"][v][s] for v, s in var["evidence"].items()} or None,
-                    virtual_evidence=[vcpd(d) for d in var["vev"]] or None,
-                    virtual_intervention=[vcpd(d) for d in var["vint"]] or None,
-                    include_latents=il, partial_samples=make_partial(bn, part, aux["pdtype"]), seed=seed,
-                    show_progress=False)
+        # with a shared model the caller-owned argument objects (dicts, CPD lists, frame) are re-used as well
+        if shared and _kw:
+            return dict(_kw[0])
+        kw = dict(n_samples=n, do={v: bn["states"][v][s] for v, s in var["do"].items()},
+                  evidence={v: bn["states"][v][s] for v, s in var["evidence"].items()},
+                  virtual_evidence=[vcpd(d) for d in var["vev"]],
+                  virtual_intervention=[vcpd(d) for d in var["vint"]],
+                  include_latents=il, partial_samples=make_partial(bn, part, aux["pdtype"]), seed=seed,
+                  show_progress=False)
+        if empty == "none":
+            for k in ("do", "evidence", "virtual_evidence", "virtual_intervention"):
+                kw[k] = kw[k] or None
+        _kw.append(kw)
+        return dict(kw)
+
+    def the_model():
+        return aux.get("shared_model") or build_bn(bn, aux["build_seed"])
 
     desc = {k: v for k, v in var.items() if k in ("do", "evidence", "vev", "vint", "missing") and v}
-    lab = f"simulate(n={n}, seed={seed}, include_latents={il}, {desc}" \
+    lab = f"{aux.get('tag', '')}simulate(n={n}, seed={seed}, include_latents={il}, empty={empty}, {desc}" \
           f"{', partial_samples=' + str(part['cols']) if part else ''})"
     tup_extra = []
-    model = build_bn(bn, aux["build_seed"])
+    model = the_model()
     perturb(9)
     with Session() as ses:
         r = ctx.call(model.simulate, **kwargs())
@@ -829,7 +923,7 @@ def probe_sim(bn, var, obs, ctx, aux):
                     lab + " vs condition-matching rows of the traced forward batches", attribs(bn, [], part))
     # same seed again
     perturb(10)
-    r2 = ctx.call(build_bn(bn, aux["build_seed"]).simulate, **kwargs())
+    r2 = ctx.call(the_model().simulate, **kwargs())
     if ctx.failed(r2):
         return fail(obs, bn, r2, lab + " [2nd run]", part, tup_extra)
     try:
@@ -845,7 +939,7 @@ def probe_sim(bn, var, obs, ctx, aux):
         perturb(11)
         kw = kwargs()
         kw.update(include_missing=True, missing_prob=ms["prob"], missing_columns=ms["columns"])
-        r3 = ctx.call(build_bn(bn, aux["build_seed"]).simulate, **kw)
+        r3 = ctx.call(the_model().simulate, **kw)
         lab3 = lab + f" [include_missing, prob={ms['prob']}, columns={ms['columns']}]"
         if ctx.failed(r3):
             return fail(obs, bn, r3, lab3, part, tup_extra)
@@ -855,9 +949,9 @@ def probe_sim(bn, var, obs, ctx, aux):
                 return
             for c in cols:
                 isna = r3[c].isna().to_numpy()
-                if ms["columns"] and c not in ms["columns"]:
+                if ms["columns"] is not None and c not in ms["columns"]:
                     obs.expect(not (isna & (got[c] >= 0)).any(), "c07:missing-in-unpermitted-column", f"{lab3}: column {c!r} has missing "
-                               f"values but is not in missing_columns")
+                               f"values but is not in missing_columns", [K_MISS_EMPTY] if ms["columns"] == [] else [])
                 nums = P.numbers(r3[c], c)
                 keep = ~isna
                 obs.expect(bool(np.all(nums[keep] == got[c][keep])), "c07:missing-changed-other-cells",
@@ -865,8 +959,22 @@ def probe_sim(bn, var, obs, ctx, aux):
                            attribs(bn, [], part))
         except Exception as e:
             return obs.violation("c07:malformed-result", f"{lab3}: {type(e).__name__}: {e}")
-    if not obs.viol:
+    if not [v for v in obs.viol if not set(v['attrib']) & set(OPTION_KEYS)]:
         obs.xcell["simulate"] = digest(got)
+
+
+def probe_reuse(bn, prm, obs, ctx, aux):
+    """ONE BayesianModelSampling object serves a sequence of different calls (sampler kind, evidence, size, seed,
+    include_latents, partial_samples all change); every call is judged by the same oracles as a fresh one."""
+    smp = ctx.call(get_sampler, bn, aux)
+    if ctx.failed(smp):
+        return fail(obs, bn, smp, "BayesianModelSampling(model)")
+    fns = {"fwd": probe_fwd, "rej": probe_rej, "lw": probe_lw}
+    for k, step in enumerate(prm["steps"]):
+        aux2 = dict(aux, shared_sampler=smp, tag=f"[shared sampler, step {k + 1}/{len(prm['steps'])}] ")
+        fns[step["kind"]](bn, step, obs, ctx, aux2)
+    obs.xcell = {}
+    obs.note("shared_sampler_steps", len(prm["steps"]))
 
 
 def probe_stat(bn, prm, obs, ctx, aux):
@@ -928,13 +1036,13 @@ def neutralise(bn, key, partial):
 NEUTRALISABLE = [K_NUMNAME, K_PARTIAL]
 
 
-def run_probe(fn, bn, prm, ctx, aux, partial):
+def run_probe(fn, bn, prm, ctx, aux, partial, first_aux=None):
     """Run one sampler probe; if it fails and a structural predicate of a known mechanism holds, re-run it with
     the triggers neutralised one after the other (cumulatively).  Only when a re-run is completely clean are the
     violations attributed, each to the last neutralised mechanism its own predicate names; anything else keeps
     its generic key."""
     obs = Obs()
-    fn(bn, prm, obs, ctx, aux)
+    fn(bn, prm, obs, ctx, first_aux or aux)
     cand = [v for v in obs.viol if any(k in v["attrib"] for k in NEUTRALISABLE)]
     if cand:
         cur, applied = bn, []
@@ -950,7 +1058,7 @@ def run_probe(fn, bn, prm, ctx, aux, partial):
             o2 = Obs()
             fn(cur, prm, o2, ctx, aux)
             obs.note("neutralised_reruns")
-            left = [w for w in o2.viol if not any(k in w["attrib"] for k in (K_VLEAK, K_GIBBS_SEED, K_GEN_LAT))]
+            left = [w for w in o2.viol if not any(k in w["attrib"] for k in OPTION_KEYS)]
             triggers |= {k for w in left for k in w["attrib"]}   # a re-labelling can expose another known trigger
             if not left:
                 for v in cand:
@@ -961,7 +1069,7 @@ def run_probe(fn, bn, prm, ctx, aux, partial):
     # predicates that need no re-run (the triggering feature is the call option itself)
     for v in obs.viol:
         if "final" not in v:
-            for key in (K_VLEAK, K_GIBBS_SEED, K_GEN_LAT):
+            for key in OPTION_KEYS:
                 if key in v["attrib"]:
                     v["final"] = key
     return obs
@@ -1008,10 +1116,18 @@ def run_case(spec, ctx):
             ("gibbs", probe_gibbs, spec["gibbs"], None)]
     for i, var in enumerate(spec["sim"]):
         plan.append((f"sim{i}", probe_sim, var, var.get("partial")))
+    if spec.get("reuse"):
+        plan.append(("reuse", probe_reuse, spec["reuse"], spec["reuse"].get("partial")))
+    shared_model = build_bn(bn, spec["build_seed"]) if spec.get("sim_reuse") else None
     if spec.get("stat"):
         plan.append(("stat", probe_stat, spec["stat"], None))
     for name, fn, prm, partial in plan:
-        obs = run_probe(fn, bn, prm, ctx, aux, partial)
+        if shared_model is not None and name.startswith("sim"):
+            # ONE model object serves every simulate() call of the case (neutralised re-runs build their own)
+            obs = run_probe(fn, bn, prm, ctx, aux, partial, first_aux=dict(aux, shared_model=shared_model,
+                                                                            tag="[shared model] "))
+        else:
+            obs = run_probe(fn, bn, prm, ctx, aux, partial)
         emit(ctx, obs)
         deep = deep or obs.deep
         for k, x in obs.xcell.items():
@@ -1024,6 +1140,12 @@ def run_case(spec, ctx):
                  ("sim-virtual-evidence", any(v["vev"] for v in spec["sim"])),
                  ("sim-virtual-intervention", any(v["vint"] for v in spec["sim"])),
                  ("sim-missing", any(v["missing"] for v in spec["sim"])),
-                 ("sim-partial", any(v["partial"] for v in spec["sim"]))):
+                 ("sim-partial", any(v["partial"] for v in spec["sim"])),
+                 ("shared-sampler-sequence", spec.get("reuse")), ("shared-model-simulate", spec.get("sim_reuse")),
+                 ("gibbs-object-reuse", spec["gibbs"].get("reuse")), ("tiny-cpd-entries", spec.get("tiny")),
+                 ("evidence-none", spec["rej"].get("ev_none") or spec["lw"].get("ev_none")),
+                 ("sim-empty-containers", any(v.get("empty") == "empty" for v in spec["sim"])),
+                 ("sim-missing-columns-empty", any(v["missing"] and v["missing"]["columns"] == [] for v in spec["sim"])),
+                 ("seed-0", spec["fwd"]["seed"] == 0 or spec["rej"]["seed"] == 0 or spec["lw"]["seed"] == 0)):
         if c:
             ctx.feature(f)
